@@ -251,6 +251,9 @@ def decide(prop, tier, repo, seed, only_units=None, quiet=False):
                     continue
                 errs = [e for e in main.errors if e["fn"] == f]
                 mine_errs = [e for e in errs if not err_props(e) or prop in err_props(e)]
+                if prop in u.get("strict_tags", []):
+                    # this unit serves the property only through the clauses explicitly tagged with it
+                    mine_errs = [e for e in errs if prop in err_props(e)]
                 if errs and not mine_errs:
                     # every failing clause belongs to another property
                     for o in obligations:
